@@ -97,3 +97,11 @@ arrival_orders!(t16_arrival_orders_rpb1_total3, 1, 3, 5);
 arrival_orders!(t16_arrival_orders_rpb2_total4, 2, 4, 6);
 arrival_orders!(t16_arrival_orders_rpb2_total5, 2, 5, 7);
 arrival_orders!(t16_arrival_orders_rpb3_total5, 3, 5, 7);
+
+// native replay slot (cargo kani playback): the driver points IPA_VERIF_REPLAY_DIR at a directory
+// holding one file per hook; the generated test calls the harness by its path relative to this module.
+#[cfg(test)]
+mod replay_here {
+    use super::*;
+    include!(concat!(env!("IPA_VERIF_REPLAY_DIR"), "/batcher.rs"));
+}
